@@ -11,6 +11,20 @@ void  nni_list_init_offset(nni_list *l, size_t off) { if (!VP_IS_AIOQ(l)) real_l
 void *nni_list_first(const nni_list *l) { return (VP_IS_AIOQ(l) ? vp_aioq_first(l) : real_list_first(l)); }
 int   nni_list_empty(nni_list *l) { return (VP_IS_AIOQ(l) ? vp_aioq_empty(l) : real_list_empty(l)); }
 void  nni_list_append(nni_list *l, void *item) { if (VP_IS_AIOQ(l)) nni_aio_list_append(l, (nni_aio *) item); else real_list_append(l, item); }
+/* prepend on a ghost aio queue: the new member becomes the head; a former single member becomes the tail */
+static void vp_aioq_prepend(nni_list *l, nni_aio *aio)
+{
+	vp_aioq *q = vp_which(l);
+	__CPROVER_assert(!vp_on(&g_qa, aio) && !vp_on(&g_qb, aio), "prepend: aio is not already on a list");
+	if (q->n == 0) {
+		q->tail = aio;
+	} else if (q->n == 1) {
+		q->tail = q->head;
+	}
+	q->head = aio;
+	q->n++;
+}
+void  nni_list_prepend(nni_list *l, void *item) { if (VP_IS_AIOQ(l)) vp_aioq_prepend(l, (nni_aio *) item); else real_list_prepend(l, item); }
 void  nni_list_remove(nni_list *l, void *item) { if (VP_IS_AIOQ(l)) nni_aio_list_remove((nni_aio *) item); else real_list_remove(l, item); }
 int   nni_list_active(nni_list *l, void *item) { return (VP_IS_AIOQ(l) ? nni_aio_list_active((nni_aio *) item) : real_list_active(l, item)); }
 void *nni_list_next(const nni_list *l, void *item)
